@@ -307,6 +307,10 @@ def check_reuse(perm_i: int, converted: bool, spell: int) -> bool:
     return first == want
 
 
+def c19c_reuse_concrete(perm_i: int, converted: bool, spell: int) -> bool:
+    return check_reuse(perm_i, converted, spell)
+
+
 def c19c_reuse(perm_i: int, converted: bool, spell: int) -> bool:
     """
     pre: 0 <= perm_i < 24
